@@ -293,6 +293,8 @@ def client_kwargs(cfg, world):
         kw["tls_context"] = FakeTLS(world)
     if c["serde"] == 1:
         kw["serde"] = serde.PickleSerde()
+    elif c["serde"] >= 2:       # CompressedSerde around PickleSerde with the identity codec, min_compress_len = code - 2
+        kw["serde"] = serde.CompressedSerde(compress=lambda b: b, decompress=lambda b: b, min_compress_len=c["serde"] - 2)
     server = ("mc.example", 11211) if c["tcp"] else "/tmp/mc.sock"
     return server, kw
 
